@@ -383,6 +383,7 @@ func c01Scenarios(thorough bool) []c01Scn {
 func c01Configs(thorough bool) []c01Cfg {
 	c := []c01Cfg{
 		{1, 1, false, false}, {2, 1, false, false}, {2, 2, false, true}, {1, 1, true, false}, {3, 2, false, false}, {3, 1, false, true},
+		{1, 2, false, false}, // a batch size above the queue size (options are not clamped): S1 and S11 only
 	}
 	if thorough {
 		c = append(c, c01Cfg{2, 2, false, false}, c01Cfg{2, 2, true, true}, c01Cfg{1, 1, false, true}, c01Cfg{3, 2, true, false}, c01Cfg{4, 3, false, true})
@@ -400,6 +401,9 @@ func TestVerifC01(t *testing.T) {
 				continue // real spans have many more scheduling points: two configurations only
 			}
 			if !thorough && (sc.name == "S4" || sc.name == "S9") && c.String() != "q1b1" {
+				continue
+			}
+			if c.b > c.q && sc.name != "S1" && sc.name != "S11" {
 				continue
 			}
 			if sc.name == "S13" && !(c.faults && c.b >= 2) {
